@@ -91,13 +91,15 @@ def evalDir (v : PyVal) : Verdict := if v.pyStr.contains '\x00' then .fail "E009
 /-- `AppendOnlyConstraint.evaluate`. -/
 def evalAppendOnly (v : PyVal) : Verdict := if !v.isList then .fail "E010" else .ok
 
-/-- `RangeConstraint.evaluate`. -/
+/-- `RangeConstraint.evaluate`.  Two details are read from the source on every run (`Gen`): which exceptions of
+`float(value)` the `except` clause catches, and whether the converted value is tested for NaN — so that the model
+follows the code when the proposed fixes for F19 / F36 are applied. -/
 def evalRange (lo hi : FVal) (v : PyVal) : Verdict :=
   if v.isBool then .fail "E011"
   else match v.toFloat with
     | .valueOrTypeError => .fail "E011"
-    | .overflowError => .raise "OverflowError"
-    | .ok x => if x.lt lo || x.gt hi then .fail "E011" else .ok
+    | .overflowError => if Gen.rangeCaught.contains "OverflowError" then .fail "E011" else .raise "OverflowError"
+    | .ok x => if (Gen.rangeNanRejected && x.isNan) || x.lt lo || x.gt hi then .fail "E011" else .ok
 
 /-- `MaxLengthConstraint.evaluate`. -/
 def evalMaxLength (n : Int) (v : PyVal) : Verdict :=
@@ -161,29 +163,30 @@ def enumVals? : Constraint → Option (List Str) | enum a => some a | _ => none
 
 end Constraint
 
-/-- Conflict kinds reported by `ConstraintChain.detect_conflicts`, in the order the code appends them. -/
+/-- Conflict kinds reported by `ConstraintChain.detect_conflicts`, in the order the code appends them
+(only their number is observable: one E999 error per conflict). -/
 inductive Conflict where
   | reqOpt
-  | constConst (i : Nat)            -- i-th adjacent pair of CONSTs differs
-  | enumConst (e c : Nat)           -- e-th ENUM does not contain str of c-th CONST
+  | constConst            -- an adjacent pair of CONSTs differs
+  | enumConst             -- an ENUM does not contain str of a CONST
   deriving Repr, DecidableEq
 
-/-- adjacent pairs `(xs[i], xs[i+1])` that differ under Python `!=`, with their index. -/
-def adjacentDiffs : List PyVal → Nat → List Conflict
-  | a :: b :: rest, i => (if !(pyEq a b) then [Conflict.constConst i] else []) ++ adjacentDiffs (b :: rest) (i + 1)
-  | _, _ => []
+/-- one conflict per adjacent pair `(xs[i], xs[i+1])` that differs under Python `!=`. -/
+def adjacentDiffs : List PyVal → List Conflict
+  | a :: b :: rest => (if !(pyEq a b) then [Conflict.constConst] else []) ++ adjacentDiffs (b :: rest)
+  | _ => []
 
+/-- `for enum_c in enums: for const_c in consts: if str(const) not in enum.allowed_values: append`. -/
 def enumConstConflicts (enums : List (List Str)) (consts : List PyVal) : List Conflict :=
-  (enums.zipIdx.map fun (e, ei) =>
-    (consts.zipIdx.filterMap fun (c, ci) =>
-      if !(e.contains c.pyStr) then some (Conflict.enumConst ei ci) else none)).flatten
+  enums.flatMap fun e =>
+    consts.filterMap fun c => if !(e.contains c.pyStr) then some Conflict.enumConst else none
 
 /-- `ConstraintChain.detect_conflicts`. -/
 def detectConflicts (cs : List Constraint) : List Conflict :=
   let consts := cs.filterMap Constraint.constVal?
   let enums := cs.filterMap Constraint.enumVals?
   (if cs.any Constraint.isReq && cs.any Constraint.isOpt then [Conflict.reqOpt] else [])
-  ++ adjacentDiffs consts 0
+  ++ adjacentDiffs consts
   ++ enumConstConflicts enums consts
 
 /-- first member that does not accept, left to right (`for constraint in self.constraints: … return result`;
